@@ -112,12 +112,18 @@ impl<'a, T: ColumnProvider> ExpressionExecutionEngine<'a, T> {
                 let left_value = self.evaluate(left)?;
                 let right_value = self.evaluate(right)?;
 
-                match (&left_value, &right_value) {
-                    (Value::Timestamp(left), Value::Interval(right)) => {
-                        return Ok(Value::Timestamp(left.add(right.clone())));
+                match (&left_value, &right_value, operator) {
+                    (Value::Timestamp(left), Value::Interval(right), ArithmeticOperator::Add) => {
+                        return left.checked_add_signed(right.clone()).map(|x| Value::Timestamp(x)).ok_or(EvaluationError::Overflow);
                     }
-                    (Value::Interval(left), Value::Timestamp(right)) => {
-                        return Ok(Value::Timestamp(right.add(left.clone())));
+                    (Value::Timestamp(left), Value::Interval(right), ArithmeticOperator::Subtract) => {
+                        return left.checked_sub_signed(right.clone()).map(|x| Value::Timestamp(x)).ok_or(EvaluationError::Overflow);
+                    }
+                    (Value::Interval(left), Value::Timestamp(right), ArithmeticOperator::Add) => {
+                        return right.checked_add_signed(left.clone()).map(|x| Value::Timestamp(x)).ok_or(EvaluationError::Overflow);
+                    }
+                    (Value::Timestamp(_), Value::Interval(_), _) | (Value::Interval(_), Value::Timestamp(_), _) => {
+                        return Err(EvaluationError::UndefinedOperation);
                     }
                     _ => {}
                 }
@@ -643,7 +649,9 @@ pub enum EvaluationError {
     FailedToTruncate,
     InvalidTruncatePart,
     FailedToParseTimestamp,
-    FailedToConvert
+    FailedToConvert,
+    Overflow,
+    DivisionByZero
 }
 
 impl std::fmt::Display for EvaluationError {
@@ -670,7 +678,9 @@ impl std::fmt::Display for EvaluationError {
             EvaluationError::FailedToTruncate => { write!(f, "Failed to truncate timestamp") }
             EvaluationError::InvalidTruncatePart => { write!(f, "Not a valid part to truncate") },
             EvaluationError::FailedToParseTimestamp => { write!(f, "Failed to parse timestamp") },
-            EvaluationError::FailedToConvert => { write!(f, "Failed to convert to type") }
+            EvaluationError::FailedToConvert => { write!(f, "Failed to convert to type") },
+            EvaluationError::Overflow => { write!(f, "The result is out of range") },
+            EvaluationError::DivisionByZero => { write!(f, "Division by zero") }
         }
     }
 }
